@@ -43,7 +43,17 @@ class SymInput:
     def mixed(self) -> SymMixed:
         di = M.SymDiGraph(self.U, dict(self.p), dict(self.d))
         un = M.SymGraph(self.U, dict(self.p), dict(self.b))
+        self.un_ranks = un.ranks()
         return SymMixed(di, un, self.U)
+
+    def insertion_order(self, model):
+        """Node insertion order of the input graph under a model (earlier-inserted endpoint first in edges())."""
+        nodes, _, _ = self.concrete(model)
+        r = getattr(self, "un_ranks", None)
+        if r is None:
+            return nodes
+        val = lambda v: model.eval(r[v], model_completion=True).as_long()
+        return sorted(nodes, key=val)
 
     def concrete(self, model):
         """(nodes, directed edges, bidirected edges) under a z3 model."""
@@ -107,6 +117,8 @@ def solve(constraints, goal, timeout_ms=60000):
     s = z3.Solver()
     s.set("timeout", timeout_ms)
     for c in constraints:
+        s.add(c)
+    for c in M.Ctx.side:
         s.add(c)
     s.add(lift(goal))
     r = str(s.check())
